@@ -295,6 +295,7 @@ func GReplay(args []string) {
 	variants := fs.Int("variants", 2, "spellings per case")
 	keep := fs.Int("keep", 50, "keep every n-th matching case as a trace (by hash)")
 	inVariants := fs.Int("inputvariants", 0, "write only the first n spellings of a case to -inputs (0: all)")
+	inEvery := fs.Int("inputevery", 1, "write only every n-th document (by hash) to -inputs")
 	fs.Parse(args)
 	gselfcheck()
 	w := tr.NewWriter(*out)
@@ -351,7 +352,7 @@ func GReplay(args []string) {
 					continue
 				}
 				seenIn[c.Mode+string(input)] = true
-				if inw != nil && (*inVariants == 0 || v < *inVariants) && !seenIn["*"+string(input)] {
+				if inw != nil && (*inVariants == 0 || v < *inVariants) && (*inEvery <= 1 || ghash(input)%uint64(*inEvery) == 0) && !seenIn["*"+string(input)] {
 					seenIn["*"+string(input)] = true
 					b, _ := json.Marshal(map[string]interface{}{"input": tr.Ints(input)})
 					inbuf.Write(b)
